@@ -327,7 +327,43 @@ def stepRt (st : RtSt) (ws : List String) : RtSt × Option String :=
     | none => (st, some "bad-op")
   | _ => (st, some "bad-op")
 
-inductive Kind | none | mon | rt
+/-! ### expression guard (kind ex) -/
+
+/-- Prefix form: `L` | `N <k> e1..ek` | `C <name> <k> e1..ek` | `U <k> e1..ek` (call with an
+unresolvable target). -/
+partial def parseDExpr : List String → Option (DExpr × List String)
+  | "L" :: rest => some (.leaf, rest)
+  | "N" :: k :: rest => do
+    let k ← k.toNat?
+    let (cs, rest) ← parseMany k rest
+    some (.node cs, rest)
+  | "C" :: name :: k :: rest => do
+    let k ← k.toNat?
+    let (cs, rest) ← parseMany k rest
+    some (.call (some name) cs, rest)
+  | "U" :: k :: rest => do
+    let k ← k.toNat?
+    let (cs, rest) ← parseMany k rest
+    some (.call none cs, rest)
+  | _ => none
+where
+  parseMany : Nat → List String → Option (List DExpr × List String)
+    | 0, rest => some ([], rest)
+    | n + 1, rest => do
+      let (e, rest) ← parseDExpr rest
+      let (es, rest) ← parseMany n rest
+      some (e :: es, rest)
+
+def stepEx (ws : List String) : Option String :=
+  match ws with
+  | "expr" :: toks | "lval" :: toks =>
+    match parseDExpr toks with
+    | some (e, []) => some (if hasSideEffects isAllowedWatchCall e then "m rej-se" else "m acc")
+    | _ => some "bad-op"
+  | ["state"] => some "m same"
+  | _ => some "bad-op"
+
+inductive Kind | none | mon | rt | ex
 
 structure St where
   kind : Kind := .none
@@ -344,12 +380,14 @@ def stepLine (st : St) (line : String) : St × Option String :=
   | "tag" :: _ => (st, none)
   | ["kind", "mon"] => ({ st with kind := .mon }, none)
   | ["kind", "rt"] => ({ st with kind := .rt }, none)
+  | ["kind", "ex"] => ({ st with kind := .ex }, none)
   | _ =>
     if line.startsWith "#" then (st, none) else
     match st.kind with
     | .none => (st, some "bad-op")
     | .mon => let (m, o) := stepMon st.mon ws line; ({ st with mon := m }, o)
     | .rt => let (r, o) := stepRt st.rt ws; ({ st with rt := r }, o)
+    | .ex => (st, stepEx ws)
 
 def main (lines : Array String) (_args : List String) : IO Unit := do
   let mut st : St := {}
